@@ -11,7 +11,7 @@
    DESIGN.md C01 Layer C).  Outside the fragment the property is decided per explored program by the extracted
    specs on the real compiler's binary (tools/c01.py): translation validation. *)
 From Coq Require Import ZArith List String Lia.
-From HexVerif Require Import WMap Isa XAst XSem XSemProps XCodegenIsa XCodegenInv XCodegenExpr AsmSpec AsmSpecProofs XCodegenBridge.
+From HexVerif Require Import WMap Isa XAst XSem XSemProps XCodegenIsa XCodegenInv XCodegenExpr XCodegenStmt AsmSpec AsmSpecProofs XCodegenBridge.
 Import ListNotations.
 Local Open Scope Z_scope.
 
@@ -99,6 +99,55 @@ Theorem C01_expr_fragment_partial :
       pc s' = nxt /\ areg s' = z mod W /\ oreg s' = 0 /\ keeps size nslots sp off mr (mem s').
 Proof. exact expr_fragment. Qed.
 Print Assumptions C01_expr_fragment_partial.
+
+(* (4b) PARTIAL (the part of Layer C that is proved for statements).  Input: a statement in the form the code
+   generator reads it (after XConstProp.front).  Fragment: skip, stop, return e, if (xcmp's three shapes for skip
+   branches), while, sequences, assignment to a global / local / value formal, the system calls exit `0(e)` and
+   put `1(e, s)` as statements, over the expressions of (4).  `cs` models StmtCodeGen and genSysCall (call-free
+   actuals) as handed to OptimiseDirectives, i.e. BEFORE its three peephole rewrites (tools/c01.py ties
+   prologue ++ cs body ++ epilogue, with the peepholes applied by the executable `peephole`, to `xcmp -S`).
+   stmt_ok f: whatever XSem.exec with fuel f answers for the statement from a state st related to the memory m
+   (Rel: protected words intact, mem[1] = sp, every variable's word holds its value, a frame exists), the code run
+   by Isa.run from its first byte (any areg, breg) does the same:
+     Ret Normal st'       : it emits exactly the Write events of the outputs XSem added (post), consumes no input,
+                            ends just behind the code, in a memory related to st';
+     Ret (Returned v) st' : likewise, but ends at the procedure's exit label with areg = v mod 2^32;
+     Halt c st'           : it emits those events and then performs the exit system call with value c mod 2^32;
+     Fail _               : nothing is claimed (the program is not well-defined / out of fuel).
+   By induction on the fuel, so for any number of loop iterations and any nesting.
+   Layout hypotheses: temporaries and outgoing area (sp .. sp+og-1) inside memory, unprotected, not word 1,
+   disjoint from each other and from the variables; distinct variables have distinct words; sp+2 usable by `stop`.
+   Missing for C01_full: procedure/function calls and their prologue/epilogue (the frame relation across calls),
+   get, arrays and strings, the peephole pass, and the layout of whole programs. *)
+Theorem C01_stmt_fragment_partial :
+  forall (venv : string -> option loc) (pool : Z -> option Z) (size nslots off0 og : Z) (exitl : label) (ge : genv)
+         (P : Z -> Prop) (m0 : WMap.t) (lab : label -> Z) (sp : Z),
+    0 <= tlo size nslots sp /\ fb size sp - off0 < MEMW ->
+    (forall a, T size nslots sp off0 a -> ~ P a) ->
+    ~ T size nslots sp off0 1 ->
+    (forall a, O og sp a -> in_mem a = true /\ ~ P a /\ a <> 1 /\ ~ T size nslots sp off0 a) ->
+    in_mem (sp + 2) = true /\ ~ P (sp + 2) /\ sp + 2 <> 1 ->
+    (forall v a, pool v = Some a -> P a /\ in_mem a = true /\ rd m0 a = v mod W) ->
+    (forall x l, venv x = Some l ->
+       in_mem (addr_of sp l) = true /\ ~ scratch size nslots off0 og sp (addr_of sp l) /\ ~ P (addr_of sp l) /\ addr_of sp l <> 1) ->
+    (forall x y lx ly, venv x = Some lx -> venv y = Some ly -> x <> y -> addr_of sp lx <> addr_of sp ly) ->
+    forall f, stmt_ok venv pool size nslots off0 og exitl ge P m0 lab sp f.
+Proof. exact stmt_correct. Qed.
+Print Assumptions C01_stmt_fragment_partial.
+
+(* what stmt_ok says, spelled out for a statement that terminates normally *)
+Theorem C01_stmt_normal_partial :
+  forall venv pool size nslots off0 og exitl ge P m0 lab sp f,
+    stmt_ok venv pool size nslots off0 og exitl ge P m0 lab sp f ->
+    forall s n code n' st st', cs venv pool size nslots off0 og exitl s n = Some (code, n') ->
+    exec f ge s st = Ret Normal st' ->
+    forall m pos nxt a b inp, Rel venv ge P m0 sp st m -> code_at (C P m0) lab pos code nxt ->
+    0 <= pos -> nxt < W -> 0 <= lab exitl < W ->
+    exists outs a' b' m',
+      runs inp (mk pos a b 0 m) (map wr_ev outs) inp (mk nxt a' b' 0 m') /\
+      Rel venv ge P m0 sp st' m' /\ post st st' outs /\ frame_only venv size nslots off0 og sp m m'.
+Proof. exact stmt_normal. Qed.
+Print Assumptions C01_stmt_normal_partial.
 
 (* (5) the hypothesis code_at of (4) is what the assembler side delivers: where the ISA's own decoder reads
    instruction i (for a branch: with its label's position relative to the next instruction as operand) in an image
